@@ -9,12 +9,21 @@ require (
 	go.opentelemetry.io/collector/confmap/provider/yamlprovider v1.30.0
 	go.opentelemetry.io/collector/confmap/xconfmap v0.124.0
 	go.opentelemetry.io/collector/connector v0.124.0
+	go.opentelemetry.io/collector/connector/forwardconnector v0.0.0
 	go.opentelemetry.io/collector/exporter v0.124.0
+	go.opentelemetry.io/collector/exporter/debugexporter v0.0.0
+	go.opentelemetry.io/collector/exporter/nopexporter v0.0.0
+	go.opentelemetry.io/collector/exporter/otlpexporter v0.0.0
 	go.opentelemetry.io/collector/exporter/otlphttpexporter v0.0.0
 	go.opentelemetry.io/collector/extension v1.30.0
+	go.opentelemetry.io/collector/extension/memorylimiterextension v0.0.0
+	go.opentelemetry.io/collector/extension/zpagesextension v0.124.0
 	go.opentelemetry.io/collector/otelcol v0.124.0
 	go.opentelemetry.io/collector/processor v1.30.0
+	go.opentelemetry.io/collector/processor/batchprocessor v0.0.0
+	go.opentelemetry.io/collector/processor/memorylimiterprocessor v0.0.0
 	go.opentelemetry.io/collector/receiver v1.30.0
+	go.opentelemetry.io/collector/receiver/nopreceiver v0.0.0
 	go.opentelemetry.io/collector/receiver/otlpreceiver v0.0.0
 )
 
@@ -89,6 +98,7 @@ require (
 	go.opentelemetry.io/collector/extension/xextension v0.124.0 // indirect
 	go.opentelemetry.io/collector/featuregate v1.30.0 // indirect
 	go.opentelemetry.io/collector/internal/fanoutconsumer v0.124.0 // indirect
+	go.opentelemetry.io/collector/internal/memorylimiter v0.124.0 // indirect
 	go.opentelemetry.io/collector/internal/sharedcomponent v0.124.0 // indirect
 	go.opentelemetry.io/collector/internal/telemetry v0.124.0 // indirect
 	go.opentelemetry.io/collector/pdata v1.30.0 // indirect
@@ -96,6 +106,8 @@ require (
 	go.opentelemetry.io/collector/pdata/testdata v0.124.0 // indirect
 	go.opentelemetry.io/collector/pipeline v0.124.0 // indirect
 	go.opentelemetry.io/collector/pipeline/xpipeline v0.124.0 // indirect
+	go.opentelemetry.io/collector/processor/processorhelper v0.124.0 // indirect
+	go.opentelemetry.io/collector/processor/processorhelper/xprocessorhelper v0.124.0 // indirect
 	go.opentelemetry.io/collector/processor/processortest v0.124.0 // indirect
 	go.opentelemetry.io/collector/processor/xprocessor v0.124.0 // indirect
 	go.opentelemetry.io/collector/receiver/receiverhelper v0.124.0 // indirect
@@ -109,6 +121,7 @@ require (
 	go.opentelemetry.io/contrib/instrumentation/net/http/otelhttp v0.60.0 // indirect
 	go.opentelemetry.io/contrib/otelconf v0.15.0 // indirect
 	go.opentelemetry.io/contrib/propagators/b3 v1.35.0 // indirect
+	go.opentelemetry.io/contrib/zpages v0.60.0 // indirect
 	go.opentelemetry.io/otel v1.35.0 // indirect
 	go.opentelemetry.io/otel/exporters/otlp/otlplog/otlploggrpc v0.11.0 // indirect
 	go.opentelemetry.io/otel/exporters/otlp/otlplog/otlploghttp v0.11.0 // indirect
